@@ -31,6 +31,7 @@ func init() {
 			{"C02/key-defaults", "config.Load's defaults carry no value for the PAA token keys: a built-in key would pass the length test and be the same on every installation", func(c *Ctx) { keyDefaults(c, "C02/key-defaults", []string{"Security.PAATokenSigningKey", "Security.PAATokenEncryptionKey"}) }},
 			{"C02/cookie-length", "the size of the cookie field is not capped by a constant: a cookie the gateway minted is decoded whatever its length", c02CookieLength},
 			{"C02/cookie-decoding", "the cookie string handed to the check is the whole cookie field: the UTF-16 decoder visits every code unit and removes at most one trailing NUL", func(c *Ctx) { nameDecodingAs(c, "C02/cookie-decoding", "Processor.tunnelRequest", 1) }},
+			{"C02/config-tags", "the configuration fields this property depends on are read from the documented keys: koanf tag = lower-cased field name", func(c *Ctx) { configTags(c, "C02/config-tags", map[string][]string{"Configuration": {"Security"}, "SecurityConfig": {"PAATokenSigningKey", "PAATokenEncryptionKey"}}) }},
 		},
 	})
 }
